@@ -74,6 +74,15 @@ static void run_fe(long i, vh_rng *r)
         vh_count("front_end_shape_variants", 1);
     }
     if (vh_chance(r, 0.15)) config_set_float(cf, "alpha", 0.0);
+    /* every output type (cepstra / log spectrum / smoothed spectrum) meets every signal, with and without noise removal, on enough
+     * samples for several frames: the front-end runs are numbered and two thirds of them walk through that grid instead of drawing */
+    if (vh_chance(r, 0.67)) {
+        long q = i / 6; int ot = (int)(q % 3);
+        config_set_bool(cf, "logspec", ot == 1); config_set_bool(cf, "smoothspec", ot == 2);
+        kind = (int)((q / 3) % NSIG); config_set_bool(cf, "remove_noise", (int)((q / (3 * NSIG)) % 2));
+        if (n < 1000) n = VH_PICK(r, ((long[]){ 1000, 8000, 40000 }));
+        vh_count(ot == 0 ? "fe_grid_runs_cepstra" : ot == 1 ? "fe_grid_runs_log_spectrum" : "fe_grid_runs_smoothed_spectrum", 1);
+    }
     /* audio in the other byte order, declared as such: the front end swaps every sample it reads */
     swapped = vh_chance(r, 0.15);
     if (swapped) { union { uint16_t u; unsigned char c[2]; } e; e.u = 1; config_set_str(cf, "input_endian", e.c[0] ? "big" : "little"); vh_count("fe_runs_other_byte_order", 1); }
